@@ -238,6 +238,161 @@ func skeleton(fd *ast.FuncDecl) []string {
 	return out
 }
 
+// lockKind names the lock a call text refers to
+func lockKind(t string) string {
+	l := strings.ToLower(t)
+	switch {
+	case strings.Contains(l, "reserved"):
+		return "reserved"
+	case strings.Contains(l, "pending"):
+		return "pending"
+	case strings.Contains(l, "exclusive"):
+		return "exclusive"
+	case strings.Contains(l, "shared"):
+		return "shared"
+	case strings.HasPrefix(t, "file.") || strings.HasPrefix(t, "f.file."):
+		return "pathlock"
+	case strings.HasPrefix(t, "tx.lock.") || strings.HasPrefix(t, "lock."):
+		return "txlock"
+	}
+	return "other:" + t
+}
+
+// callEv classifies a call expression text; ok=false if it is irrelevant
+func callEv(t string, deferred bool) (string, bool) {
+	q := func(s string) string { return strconv.Quote(s) }
+	switch {
+	case strings.HasPrefix(t, "cleanup.IfNot(&"):
+		rest := t[len("cleanup.IfNot(&"):]
+		i := strings.Index(rest, ",")
+		if i < 0 {
+			return "", false
+		}
+		flag := rest[:i]
+		fn := strings.TrimSuffix(strings.TrimSpace(rest[i+1:]), ")")
+		fn = strings.TrimPrefix(fn, "cleanup.IgnoreError(")
+		fn = strings.TrimSuffix(fn, ")")
+		if strings.HasPrefix(fn, "func()") {
+			fn = "closure"
+		}
+		return fmt.Sprintf(".deferIfNot %s %s", q(flag), q(fn)), true
+	case strings.HasSuffix(t, ".Lock()") || strings.Contains(t, ".Lock(true"):
+		if deferred {
+			return ".deferLock " + q(lockKind(t)), true
+		}
+		return ".lock " + q(lockKind(t)), true
+	case strings.HasSuffix(t, ".Unlock()"):
+		if deferred {
+			return ".deferUnlock " + q(lockKind(t)), true
+		}
+		return ".unlock " + q(lockKind(t)), true
+	}
+	for _, k := range []string{"tx.finishWith(", "tx.close()", "f.beginTx(", "openWith(", "osfs.Open(", "f.Close()", "file.Close()", "f.file.Close()", "tx.rollbackChanges", "fn(tx)", "fn()", "tx.tryCommitChanges()", "tx.writeSync.Wait()"} {
+		if strings.Contains(t, k) {
+			name := strings.TrimSuffix(strings.TrimSuffix(k, "()"), "(")
+			if deferred {
+				return ".deferCall " + q(name), true
+			}
+			return ".call " + q(name), true
+		}
+	}
+	return "", false
+}
+
+// skeletonEv renders the body as Lean `Ev` constructors.
+func skeletonEv(fd *ast.FuncDecl) []string {
+	var out []string
+	add := func(t string, deferred bool) {
+		if e, ok := callEv(t, deferred); ok {
+			out = append(out, e)
+		}
+	}
+	var exprCalls func(e ast.Expr)
+	exprCalls = func(e ast.Expr) {
+		ast.Inspect(e, func(n ast.Node) bool {
+			if _, ok := n.(*ast.FuncLit); ok {
+				return false
+			}
+			if ce, ok := n.(*ast.CallExpr); ok {
+				add(src(ce), false)
+				return false
+			}
+			return true
+		})
+	}
+	var walk func(list []ast.Stmt)
+	walk = func(list []ast.Stmt) {
+		for _, st := range list {
+			switch s := st.(type) {
+			case *ast.DeferStmt:
+				add(src(s.Call), true)
+			case *ast.ReturnStmt:
+				for _, r := range s.Results {
+					exprCalls(r)
+				}
+				out = append(out, ".ret")
+			case *ast.IfStmt:
+				// `if err := call(); err != nil { … }`: on the error branch the call
+				// failed and had no effect, so its effect is placed after the branch
+				var initCalls []ast.Expr
+				errBranch := strings.Contains(src(s.Cond), "!= nil")
+				if s.Init != nil {
+					if as, ok := s.Init.(*ast.AssignStmt); ok {
+						for _, r := range as.Rhs {
+							if errBranch {
+								initCalls = append(initCalls, r)
+							} else {
+								exprCalls(r)
+							}
+						}
+					}
+				}
+				out = append(out, ".ifOpen")
+				walk(s.Body.List)
+				out = append(out, ".ifClose")
+				for _, r := range initCalls {
+					exprCalls(r)
+				}
+				if s.Else != nil {
+					out = append(out, ".elseOpen")
+					switch e := s.Else.(type) {
+					case *ast.BlockStmt:
+						walk(e.List)
+					case *ast.IfStmt:
+						walk([]ast.Stmt{e})
+					}
+					out = append(out, ".elseClose")
+				}
+			case *ast.BlockStmt:
+				walk(s.List)
+			case *ast.ExprStmt:
+				exprCalls(s.X)
+			case *ast.AssignStmt:
+				if len(s.Lhs) == 1 {
+					lhs := src(s.Lhs[0])
+					rhs := src(s.Rhs[0])
+					low := strings.ToLower(lhs)
+					if strings.HasSuffix(low, "ok") && !strings.Contains(lhs, ".") {
+						v := "cond"
+						if rhs == "true" || rhs == "false" {
+							v = rhs
+						}
+						out = append(out, fmt.Sprintf(".setFlag %s %s", strconv.Quote(lhs), strconv.Quote(v)))
+						continue
+					}
+				}
+				for _, r := range s.Rhs {
+					exprCalls(r)
+				}
+			}
+		}
+	}
+	if fd != nil && fd.Body != nil {
+		walk(fd.Body.List)
+	}
+	return out
+}
+
 // callOrder lists the calls of a function in source order whose text contains one of the keys
 func callOrder(fd *ast.FuncDecl, keys []string) []string {
 	var out []string
@@ -306,7 +461,9 @@ func main() {
 	w := func(format string, a ...interface{}) { fmt.Fprintf(&sb, format+"\n", a...) }
 
 	w("/- GENERATED by harness/cmd/extract from the Go sources of /repo. Do not edit. -/")
+	w("import TxVerif.Model.Skeleton")
 	w("namespace TxVerif.Facts")
+	w("open TxVerif")
 	w("")
 	c := p.consts()
 	for _, n := range []string{"magic", "version", "minPageSize", "entryBits", "entryOverflow", "walEntrySize", "defaultWALLimit", "defaultMetaGrowPercentage", "maxRegionEncSz", "initBits", "metaFlagPrealloc"} {
@@ -381,6 +538,7 @@ func main() {
 	for _, fn := range []string{"File.beginTx", "Tx.close", "Tx.finishWith", "Tx.commitChanges", "Tx.tryCommitChanges", "withInitTx", "File.Close", "Open", "openWith", "Tx.Rollback", "Tx.Close", "Tx.Commit"} {
 		id := strings.ReplaceAll(fn, ".", "_")
 		w("def skel_%s : List String := %s", id, leanList(skeleton(p.funcs[fn])))
+		w("def ev_%s : List Ev := [%s]", id, strings.Join(skeletonEv(p.funcs[fn]), ", "))
 	}
 	w("")
 	keys := []string{"flushPages", "commitPrepareWAL", "commitPrepareAlloc", "tryCommitChangesToFile", "writeSync.Wait", "allocator.Commit", "exclusive.Lock", "pending.Lock", "wal.Commit", "fileCommitAlloc", "fileCommitSerialize", "writer.Sync", "fileCommitMeta", "syncNewMeta", "writer.Schedule", "Finalize", "truncate", "mmapUpdate"}
